@@ -44,8 +44,23 @@ impl Quil for Delay {
         for frame_name in &self.frame_names {
             write!(writer, " {}", QuotedString(frame_name))?;
         }
-        write!(writer, " ",)?;
-        self.duration.write(writer, fall_back_to_debug)
+        // Without frame names nothing separates the qubits from the duration, and a duration such
+        // as `8-20.0i` or `2-pi` could also be read as one more qubit followed by `-20.0i` / `-pi`.
+        // Group such durations so that the text parses back to this instruction.
+        let ambiguous_duration = self.frame_names.is_empty()
+            && match &self.duration {
+                Expression::Infix(_) => true,
+                Expression::Number(value) => value.re != 0.0 && value.im != 0.0,
+                _ => false,
+            };
+        if ambiguous_duration {
+            write!(writer, " (")?;
+            self.duration.write(writer, fall_back_to_debug)?;
+            write!(writer, ")").map_err(Into::into)
+        } else {
+            write!(writer, " ",)?;
+            self.duration.write(writer, fall_back_to_debug)
+        }
     }
 }
 
